@@ -351,6 +351,7 @@ Inductive op :=
 | OSealed (d req sec : N)
 | ORevokeDeleg (parent child : N)
 | ORevokeCascade (parent child : N)
+| ORestart             (* the vault object is dropped and re-created over the same store and graph *)
 | OPerm (req sec : N)
 | OMember (a b : N) | OUnmember (a b : N)
 | OTick (d : N).      (* time passes *)
@@ -373,6 +374,8 @@ Definition step (s : st) (now : N) (o : op) : st * ans :=
   | OSealed d r _ => let '(s', l) := op_sealed s now d r in (s', ALevel l)
   | ORevokeDeleg pa c => let '(s', r) := op_revoke_deleg s pa c in (s', ACode r)
   | ORevokeCascade pa c => let '(s', r) := op_revoke_cascade s pa c in (s', ACode r)
+  (* Vault::new reloads the persisted TTL tracker and delegation records and sweeps the expired grants *)
+  | ORestart => (sweep s now, ACode 0)
   | OMember a b => (St (secrets s) (members s ++ [(a, b)]) (grants s) (ttls s) (delegs s) (wlog s), ACode 0)
   | OUnmember a b => (St (secrets s) (filter (fun e => negb (N.eqb (fst e) a && N.eqb (snd e) b)) (members s))
                          (grants s) (ttls s) (delegs s) (wlog s), ACode 0)
